@@ -1,14 +1,10 @@
 (* C29/Upgrade_C29.v — binpkg replace whose old and new tarball names differ. *)
 From Coq Require Import List NArith ZArith Bool Lia.
 Import ListNotations.
-From Verif Require Import Base.Val C18.Fs C18.FsLemmas C29.Model_C29 C29.Spec_C29 C29.Proofs_C29.
+From Verif Require Import Base.Val C18.Fs C18.FsLemmas C29.Model_C29 C29.Spec_C29 C29.Proofs_C29 C29.Complete_C29.
 
-(* ------------------------------------------------------------------ binpkg replace by ANOTHER file name
-   (upgrade 1.0 -> 1.1, or 1.0 -> 1.0-r0 which install_or_replace treats as the same version):
-   binpkg.repo_ops.replace.finalize_data is install.finalize_data — the op list is
-   bin_install_ops for the new name and the old tarball is never named.  So at every crash prefix
-   every other listed package, the old one included, is exactly as before: "never neither" holds
-   in the strongest form (and the completed replace still lists the old tarball: a finding). *)
+(* ------------------------------------------------------------------ binpkg install next to other tarballs:
+   no crash prefix of bin_install_ops changes a visible path outside the new tarball *)
 Section BinOthers.
   Variable base : path.
   Notation vis := (visible bin_cat_ok bin_skip base).
@@ -39,20 +35,199 @@ Section BinOthers.
     exact (proj2 HI).
   Qed.
 
-  (* the old tarball of an upgrade replace is listed, in full, at every crash prefix and after *)
-  Corollary bin_replace_old_kept_proof s cat pid old pf chunks cache :
-    nolinks s -> bin_cat_ok cat = true -> bin_skip (old ++ TBZ2) = false -> old ++ TBZ2 <> pf ++ TBZ2 ->
-    forall k, let t := run (firstn k (bin_install_ops s base cat pid pf chunks cache)) s in
-      listed bin_cat_ok bin_skip false base t cat (old ++ TBZ2) = listed bin_cat_ok bin_skip false base s cat (old ++ TBZ2)
-      /\ content base t cat (old ++ TBZ2) [] = content base s cat (old ++ TBZ2) [].
-  Proof.
-    intros Hn Hc Hs Hne k t.
-    unfold listed, content, read_file.
-    match goal with |- context [lookup t ?p] => assert (L : lookup t p = lookup s p) end.
-    { apply bin_install_others_untouched_proof; [exact Hn|now exists cat, (old ++ TBZ2), []|].
-      destruct (is_prefix _ _) eqn:E; [|reflexivity]. exfalso. apply is_prefix_true in E as [r E].
-      unfold bin_final in E. rewrite <- app_assoc in E. apply app_inv_head in E. cbn in E.
-      injection E as E _. apply Hne. now symmetry. }
-    rewrite L. split; reflexivity.
-  Qed.
 End BinOthers.
+
+(* ------------------------------------------------------------------ binpkg replace (repaired code)
+   replace.finalize_data = rename the new tarball in, then unlink the old one when its file name
+   differs (version bump, 1.0 vs 1.0-r0).  Two names cannot be swapped atomically, so exactly one
+   crash point remains at which BOTH tarballs are listed (each complete): the whole view is then
+   neither the old nor the new one (known class binpkg-replace-both-listed-window), but never
+   neither version and never a partial one:
+     [bin_replace_partial]            old-or-new at every other crash prefix
+     [bin_replace_same_name]          old-or-new at every crash prefix when the name is the same
+     [bin_replace_never_neither]      the old tarball is untouched up to and including that point,
+                                      the new one is final from that point on
+     [bin_replace_complete]           after completion: new listed in full, old not listed
+     [bin_replace_refuted]            the window is real *)
+Section BinReplace.
+  Variable base : path.
+  Notation vis := (visible bin_cat_ok bin_skip base).
+  Notation out := (outside bin_cat_ok bin_skip base).
+
+  Lemma unlink_old_plain s cat old pf : Forall plain (bin_unlink_old s base cat old pf).
+  Proof. unfold bin_unlink_old. destruct (path_eq_dec _ _); [constructor|]. destruct (bound _ _); repeat constructor. Qed.
+  Lemma unlink_old_names s cat old pf :
+    Forall (names_only (bin_final base cat old)) (bin_unlink_old s base cat old pf).
+  Proof. unfold bin_unlink_old. destruct (path_eq_dec _ _); [constructor|]. destruct (bound _ _); repeat constructor. Qed.
+
+  Theorem bin_replace_partial_proof s cat pid old pf chunks cache :
+    nolinks s ->
+    crash_consistent_outside bin_cat_ok bin_skip false base
+      (bin_replace_lo s base cat pid pf chunks) (bin_replace_hi s base cat pid old pf chunks)
+      (bin_replace_ops s base cat pid old pf chunks cache) s.
+  Proof.
+    intro Hn. unfold bin_replace_ops, bin_replace_hi, bin_replace_lo.
+    replace (length (bin_stage s base cat pid pf chunks) + 1 + length (bin_unlink_old s base cat old pf))
+      with (length (bin_stage s base cat pid pf chunks)
+            + length (Rename (bin_tmp base cat pid pf) (bin_final base cat pf) :: bin_unlink_old s base cat old pf))
+      by (cbn; lia).
+    apply (window bin_cat_ok bin_skip false base); auto.
+    - apply bin_stage_out.
+    - constructor; [exact I|apply unlink_old_plain].
+    - apply bin_cache_out.
+  Qed.
+
+  Theorem bin_replace_same_name_proof s cat pid old pf chunks cache :
+    nolinks s -> bin_final base cat old = bin_final base cat pf ->
+    bin_consistent base (bin_replace_ops s base cat pid old pf chunks cache) s.
+  Proof.
+    intros Hn E k. apply (bin_replace_partial_proof s cat pid old pf chunks cache Hn k).
+    unfold bin_replace_hi, bin_unlink_old. destruct (path_eq_dec _ _); [|contradiction]. cbn. lia.
+  Qed.
+
+  Lemma old_not_under_final cat old pf :
+    old ++ TBZ2 <> pf ++ TBZ2 -> is_prefix (bin_final base cat pf) (bin_final base cat old) = false.
+  Proof.
+    intro Hne. destruct (is_prefix _ _) eqn:E; [|reflexivity]. exfalso. apply is_prefix_true in E as [r E].
+    unfold bin_final in E. rewrite <- app_assoc in E. apply app_inv_head in E. cbn in E.
+    injection E as E _. apply Hne. exact E.
+  Qed.
+
+  Theorem bin_replace_never_neither_proof s cat pid old pf chunks cache :
+    nolinks s -> bin_cat_ok cat = true -> bin_skip (old ++ TBZ2) = false -> bin_skip (pf ++ TBZ2) = false ->
+    old ++ TBZ2 <> pf ++ TBZ2 ->
+    let ops := bin_replace_ops s base cat pid old pf chunks cache in
+    let p := bin_replace_lo s base cat pid pf chunks + 1 in
+    forall k,
+      (k <= p -> lookup (run (firstn k ops) s) (bin_final base cat old) = lookup s (bin_final base cat old))
+      /\ (p <= k -> lookup (run (firstn k ops) s) (bin_final base cat pf) = lookup (run ops s) (bin_final base cat pf)).
+  Proof.
+    intros Hn Hc Hso Hsn Hne ops p k.
+    set (A := bin_stage s base cat pid pf chunks ++ [Rename (bin_tmp base cat pid pf) (bin_final base cat pf)]).
+    set (B := bin_unlink_old s base cat old pf ++ bin_cache s base cache).
+    assert (Eops : ops = A ++ B).
+    { unfold ops, bin_replace_ops, A, B. rewrite <- !app_assoc. reflexivity. }
+    assert (LA : length A = p).
+    { unfold A, p, bin_replace_lo. rewrite app_length. reflexivity. }
+    assert (Vold : vis (bin_final base cat old)) by (exists cat, (old ++ TBZ2), []; auto).
+    assert (Vnew : vis (bin_final base cat pf)) by (exists cat, (pf ++ TBZ2), []; auto).
+    split; intro Hk.
+    - (* the prefix is a prefix of the install op list *)
+      assert (E : firstn k ops = firstn k (bin_install_ops s base cat pid pf chunks cache)).
+      { rewrite Eops. unfold bin_install_ops. fold A. rewrite (app_assoc _ [_] _). fold A.
+        rewrite !firstn_app. replace (k - length A) with 0 by lia. reflexivity. }
+      rewrite E. apply bin_install_others_untouched_proof; auto. now apply old_not_under_final.
+    - (* from the rename on nothing touches the new tarball *)
+      assert (HB : forall X t, Forall (fun o => out o \/ names_only (bin_final base cat old) o) X -> nolinks t ->
+                   lookup (run X t) (bin_final base cat pf) = lookup t (bin_final base cat pf)).
+      { induction X as [|o X IH]; intros t HX Nt; [reflexivity|]. cbn.
+        destruct (apply_op t o) as [t'|] eqn:Eo; [|reflexivity].
+        inversion HX as [|? ? Ho HX']; subst.
+        assert (Nt' : nolinks t').
+        { eapply nolinks_step; [|exact Nt|exact Eo]. destruct Ho as [Ho|Ho]; [now apply outside_plain in Ho|eapply names_only_plain; eauto]. }
+        rewrite IH by auto. destruct Ho as [Ho|Ho].
+        - exact (outside_frame _ _ _ _ _ _ Nt Ho Eo _ Vnew).
+        - eapply names_only_frame; eauto. intro E. apply Hne. unfold bin_final in E.
+          apply app_inv_head in E. injection E as E. now symmetry. }
+      assert (FB : Forall (fun o => out o \/ names_only (bin_final base cat old) o) B).
+      { unfold B. apply Forall_app. split.
+        - eapply Forall_impl; [|apply unlink_old_names]. intros; now right.
+        - eapply Forall_impl; [|apply bin_cache_out]. intros; now left. }
+      rewrite Eops. rewrite firstn_app, firstn_all2 by lia. rewrite !run_app.
+      destruct (run_opt A s) as [t|] eqn:EA; [|reflexivity].
+      assert (Nt : nolinks t).
+      { eapply nolinks_run_opt; [|exact Hn|exact EA]. unfold A. apply Forall_app. split; [|repeat constructor].
+        eapply Forall_impl; [apply outside_plain|apply bin_stage_out]. }
+      rewrite (HB _ t (Forall_firstn _ _ _ FB) Nt), (HB _ t FB Nt). reflexivity.
+  Qed.
+
+  Theorem bin_replace_complete_proof s cat pid old pf chunks cache s' :
+    nolinks s -> bin_cat_ok cat = true -> bin_skip (old ++ TBZ2) = false -> bin_skip (pf ++ TBZ2) = false ->
+    old ++ TBZ2 <> pf ++ TBZ2 ->
+    run_opt (bin_replace_ops s base cat pid old pf chunks cache) s = Some s' ->
+    listed bin_cat_ok bin_skip false base s' cat (pf ++ TBZ2) = true
+    /\ content base s' cat (pf ++ TBZ2) [] = Some (concat chunks)
+    /\ listed bin_cat_ok bin_skip false base s' cat (old ++ TBZ2) = false.
+  Proof.
+    intros Hn Hc Hso Hsn Hne H.
+    set (A := bin_stage s base cat pid pf chunks ++ [Rename (bin_tmp base cat pid pf) (bin_final base cat pf)]).
+    unfold bin_replace_ops in H. change (Rename ?a ?b :: ?l) with ([Rename a b] ++ l) in H.
+    rewrite <- app_assoc in H. rewrite (app_assoc _ [_] _) in H. fold A in H.
+    rewrite run_opt_app in H. destruct (run_opt A s) as [t2|] eqn:EA; [|discriminate].
+    destruct (bin_commit_state _ _ _ _ _ _ _ Hn EA) as [N2 R2].
+    rewrite run_opt_app in H. destruct (run_opt (bin_unlink_old s base cat old pf) t2) as [t3|] eqn:EU; [|discriminate].
+    assert (N3 : nolinks t3) by (eapply nolinks_run_opt; [apply unlink_old_plain|exact N2|exact EU]).
+    pose proof (outside_run _ _ _ _ (bin_cache_out base s cache) t3 N3) as Ag.
+    rewrite (run_opt_run _ _ _ H) in Ag.
+    assert (Vold : visible bin_cat_ok bin_skip base (bin_final base cat old)) by (exists cat, (old ++ TBZ2), []; auto).
+    assert (Vnew : visible bin_cat_ok bin_skip base (bin_final base cat pf)) by (exists cat, (pf ++ TBZ2), []; auto).
+    assert (Hdiff : bin_final base cat pf <> bin_final base cat old).
+    { intro E. apply Hne. unfold bin_final in E. apply app_inv_head in E. injection E as E. now symmetry. }
+    (* new *)
+    assert (Lnew : lookup s' (bin_final base cat pf) = lookup t2 (bin_final base cat pf)).
+    { rewrite (Ag _ Vnew). eapply names_only_run; [apply unlink_old_names|exact N2|exact EU|exact Hdiff]. }
+    (* old *)
+    assert (Lold : match lookup s' (bin_final base cat old) with Some n => is_file_node n = false | None => True end).
+    { rewrite (Ag _ Vold). unfold bin_unlink_old in EU.
+      destruct (path_eq_dec (bin_final base cat old) (bin_final base cat pf)) as [E|_]; [now symmetry in E|].
+      destruct (bound s (bin_final base cat old)) eqn:Eb.
+      - cbn in EU. destruct (lookup t2 (bin_final base cat old)) as [n|]; [|discriminate].
+        destruct (is_dir_node n); [discriminate|]. injection EU as <-. now rewrite lookup_remove_same.
+      - cbn in EU. injection EU as <-.
+        assert (L2 : lookup t2 (bin_final base cat old) = lookup s (bin_final base cat old)).
+        { pose proof (bin_install_others_untouched_proof base s cat pid pf chunks [] Hn
+                        (length A) _ Vold (old_not_under_final cat old pf Hne)) as U.
+          unfold bin_install_ops in U. rewrite (app_assoc _ [_] _) in U. fold A in U.
+          rewrite firstn_app, firstn_all, Nat.sub_diag in U. cbn [firstn] in U. rewrite app_nil_r in U.
+          now rewrite (run_opt_run _ _ _ EA) in U. }
+        rewrite L2. unfold bound in Eb. destruct (lookup s (bin_final base cat old)); [discriminate|exact I]. }
+    apply read_file_node in R2 as (m & u & g & ti & i & R2).
+    repeat split.
+    - unfold listed. rewrite Hc, Hsn. change (base ++ [cat; pf ++ TBZ2]) with (bin_final base cat pf).
+      rewrite Lnew, R2. reflexivity.
+    - unfold content, read_file. change (base ++ [cat; pf ++ TBZ2]) with (bin_final base cat pf). now rewrite Lnew, R2.
+    - unfold listed. rewrite Hc, Hso. change (base ++ [cat; old ++ TBZ2]) with (bin_final base cat old).
+      cbn. destruct (lookup s' (bin_final base cat old)) as [n|]; [exact Lold|reflexivity].
+  Qed.
+End BinReplace.
+
+(* the window is real *)
+Definition bin_replace_full : Prop :=
+  forall base s cat pid old pf chunks cache,
+    nolinks s -> bin_consistent base (bin_replace_ops s base cat pid old pf chunks cache) s.
+
+Module BEx.
+  Definition b : str := s2l "b"%bs.
+  Definition c : str := s2l "c"%bs.
+  Definition pid : str := s2l "7"%bs.
+  Definition p1 : str := s2l "p-1"%bs.
+  Definition p2 : str := s2l "p-2"%bs.
+  Definition s0 : fs :=
+    [([b], Dir 493 0 0 5); ([b; c], Dir 493 0 0 5); ([b; c; p1 ++ TBZ2], File [1; 2]%N 420 0 0 5 1)].
+  Definition ops := bin_replace_ops s0 [b] c pid p1 p2 [[3]%N; [4; 5]%N] [[6]%N].
+  Lemma s0_nolinks : nolinks s0.
+  Proof.
+    intros p q n m i H1 H2 I1 I2. cbn in H1, H2.
+    repeat (destruct H1 as [H1|H1]; [injection H1 as <- <-|]); try contradiction;
+      repeat (destruct H2 as [H2|H2]; [injection H2 as <- <-|]); try contradiction;
+      cbn in I1, I2; congruence.
+  Qed.
+End BEx.
+
+Example bin_replace_example :
+  (exists t, run_opt BEx.ops BEx.s0 = Some t)
+  /\ bin_replace_lo BEx.s0 [BEx.b] BEx.c BEx.pid BEx.p2 [[3]%N; [4; 5]%N] = 4
+  /\ bin_replace_hi BEx.s0 [BEx.b] BEx.c BEx.pid BEx.p1 BEx.p2 [[3]%N; [4; 5]%N] = 6
+  /\ bin_view (run BEx.ops BEx.s0) [BEx.b] = VL [VL [VS BEx.c; VS BEx.p2; VS [3; 4; 5]%N]]
+  /\ bin_view (run (firstn 5 BEx.ops) BEx.s0) [BEx.b]
+     = VL [VL [VS BEx.c; VS BEx.p1; VS [1; 2]%N]; VL [VS BEx.c; VS BEx.p2; VS [3; 4; 5]%N]].
+Proof. repeat split; try (eexists; vm_compute; reflexivity); vm_compute; reflexivity. Qed.
+
+Theorem bin_replace_refuted_proof : ~ bin_replace_full.
+Proof.
+  intro H.
+  specialize (H [BEx.b] BEx.s0 BEx.c BEx.pid BEx.p1 BEx.p2 [[3]%N; [4; 5]%N] [[6]%N] BEx.s0_nolinks 5).
+  destruct H as [E|E].
+  - destruct (E BEx.c (BEx.p2 ++ TBZ2)) as [E1 _]. vm_compute in E1. discriminate.
+  - destruct (E BEx.c (BEx.p1 ++ TBZ2)) as [E1 _]. vm_compute in E1. discriminate.
+Qed.
